@@ -354,6 +354,11 @@ def replay(ctx: Ctx, data: dict) -> bool:
         if r:
             print(f"  {r[0]}: {r[1]}")
         return r is None
+    if "molecular_bond_oracle" in data:
+        r = bh.molecular_bond_predicate(data["molecular_bond_oracle"]["pts"])
+        if r:
+            print(f"  {r[0]}: {r[1]}")
+        return r is None
     if "metropolis" in data:
         e1, e2, T, u = data["metropolis"]
         n0 = len(ctx.failures)
